@@ -242,7 +242,23 @@ func hasCancelWatcher(fn, root *ssa.Function) bool {
 			switch x := in.(type) {
 			case *ssa.Call:
 				if core.CalleeName(x.Common()) == "context.AfterFunc" && len(x.Call.Args) > 0 && derivesFromCtx(x.Call.Args[0], f) {
-					return true
+					// the watcher must be registered on EVERY path that reaches the blocking operation,
+					// not only when, say, the context has no deadline: no call in f that leads to fn (or
+					// the blocking call itself) is reachable from f's entry without passing the registration
+					reachNoWatch := core.Reach(f, nil, nil, func(i2 ssa.Instruction) bool { return i2 == ssa.Instruction(x) })
+					uncovered := false
+					for i2 := range reachNoWatch {
+						c2, ok := i2.(ssa.CallInstruction)
+						if !ok || i2 == ssa.Instruction(x) {
+							continue
+						}
+						if g := core.StaticCallee(c2.Common()); g != nil && (g == fn || leadsTo(g, fn, 2)) {
+							uncovered = true
+						}
+					}
+					if !uncovered {
+						return true
+					}
 				}
 			case *ssa.Go:
 				lit := core.ClosureFn(x.Call.Value)
@@ -601,4 +617,22 @@ func ruleDoneAfterCallback(r *core.Report, h *hubSlots, ruleID string) {
 			r.Fail("%s: no receive case on the rendezvous channel found", d.name)
 		}
 	}
+}
+
+// leadsTo: g statically reaches target within depth calls.
+func leadsTo(g, target *ssa.Function, depth int) bool {
+	if g == target {
+		return true
+	}
+	if depth == 0 || g == nil || g.Blocks == nil {
+		return false
+	}
+	for _, in := range core.AllInstrs(g) {
+		if ci, ok := in.(ssa.CallInstruction); ok {
+			if h := core.StaticCallee(ci.Common()); h != nil && leadsTo(h, target, depth-1) {
+				return true
+			}
+		}
+	}
+	return false
 }
